@@ -123,7 +123,12 @@ where
     let up = u::<N>(p);
     let odd = Odd::new(up).unwrap();
     let params = if vartime_params {
-        total("MontyParams::new_vartime", || MontyParams::<N>::new_vartime(odd))?
+        // alternate between the inherent and the trait constructor (both "vartime in the modulus")
+        if p.bit(1) {
+            total("MontyParams::new_vartime", || MontyParams::<N>::new_vartime(odd))?
+        } else {
+            total("Monty::new_params_vartime", || <MontyForm<N> as Monty>::new_params_vartime(odd))?
+        }
     } else {
         total("MontyParams::new", || MontyParams::<N>::new(odd))?
     };
